@@ -97,7 +97,13 @@ def handleApply (id : String) (args : List String) : String :=
       let plain : Option Obs := (findTag "plain=" rest).bind fun s => (parseObs s).map (·.1)
       let mutated := (findTag "mut=" rest) = some "1"
       let model := applyModel o ind d p
-      let corr := sameObs model obs
+      -- `move` from "/" puts the root's private `self` node itself into the tree; the sharing
+      -- this creates is not modelled (nodes are values).  Such pointers are outside every
+      -- property's domain except C04, which is judged on the real outcome.
+      let aliasSelf : Bool := match Impl.decodePatch p with
+        | .ok ops => ops.any fun op => op.kind = ascii "move" && op.frm = some [47]
+        | _ => false
+      let corr := aliasSelf || sameObs model obs
       -- the specification sees the un-indented output
       let plainObs : Obs := if ind.isEmpty then obs else plain.getD obs
       let s := specApply o d p
@@ -617,29 +623,155 @@ def cliRun (stdin : Bytes) : List (Option Bytes) → Bytes × Nat
         | some out => (out, 0)
         | none => ([], 1)
 
+/-- `CLI id pkg stdin n files… => stdout exit libout libexit stderrLen`: `lib*` is the fold of
+the library's own Apply computed in-process by the harness -/
 def handleCli (id : String) (args : List String) : String :=
   match args with
-  | stdinS :: nS :: rest =>
+  | pkg :: stdinS :: nS :: rest =>
     match hexField stdinS, nS.toNat? with
     | some stdin, some n =>
       let fileFields := rest.take n
       match rest.drop n with
-      | ["=>", outS, exitS] =>
+      | ["=>", outS, exitS, libS, libExitS, errLenS] =>
         let files : Option (List (Option Bytes)) := fileFields.mapM fun f => if f = "MISSING" then some none else (hexField f).map some
-        match files, hexField outS, exitS.toNat? with
-        | some fs, some out, some ex =>
+        match files, hexField outS, exitS.toNat?, hexField libS, libExitS.toNat?, errLenS.toNat? with
+        | some fs, some out, some ex, some lib, some libEx, some errLen =>
           let (mOut, mEx) := cliRun stdin fs
-          let corr := out = mOut && ((ex = 0) = (mEx = 0))
+          -- the model covers the v5 command; the legacy command is compared with its own library only
+          let corr := pkg ≠ "v5" || (lib = mOut && ((libEx = 0) = (mEx = 0)))
           let v20 : Verdict :=
-            if ex = 0 then (if mEx = 0 ∧ out = mOut then .ok else .viol "stdout-differs-from-fold")
+            if ex = 0 then (if libEx = 0 ∧ out = lib then .ok else .viol "stdout-differs-from-fold")
             else if !out.isEmpty then .viol "document-written-on-failure"
-            else if mEx = 0 then .viol "failed-where-fold-succeeds" else .ok
+            else if libEx = 0 then .viol "failed-where-fold-succeeds"
+            else if errLen = 0 then .viol "no-error-message" else .ok
           reply id corr (showHex mOut ++ ":" ++ toString mEx) [("C20", v20)]
-            ("n" ++ toString n ++ "/" ++ (if ex = 0 then "ok" else "fail"))
-        | _, _, _ => bad id "cli-fields"
+            (pkg ++ "/n" ++ toString n ++ "/" ++ (if ex = 0 then "ok" else "fail"))
+        | _, _, _, _, _, _ => bad id "cli-fields"
       | _ => bad id "cli-arity"
     | _, _ => bad id "cli-head"
   | _ => bad id "cli-arity"
+
+/-! ### the legacy root package (C18, C19): property predicates -/
+
+def opKindAt (patch : Bytes) (i : Nat) : Option Spec.OpKind :=
+  (specPatch patch).bind fun ops => (ops[i]?).map (·.kind)
+
+mutual
+/-- numbers a float64 round trip prints back unchanged: short plain integers -/
+def floatExact : Value → Bool
+  | .num l => l.length ≤ 15 && l.all isDigit && (l.length = 1 || l.head? ≠ some 48)
+  | .arr xs => floatExactL xs
+  | .obj ms => floatExactM ms
+  | _ => true
+def floatExactL : List Value → Bool
+  | [] => true
+  | x :: xs => floatExact x && floatExactL xs
+def floatExactM : Value.Members → Bool
+  | [] => true
+  | (_, v) :: ms => floatExact v && floatExactM ms
+end
+
+def handleLApply (id : String) (args : List String) : String :=
+  match args with
+  | negS :: limitS :: doc :: patch :: "=>" :: obsS :: rest =>
+    match hexField doc, hexField patch, parseObs obsS, limitS.toInt? with
+    | some d, some p, some (obs, nilDoc), some limit =>
+      let o : Impl.Opts := { neg := negS = "1", limit := limit }
+      let s : Spec.Outcome := if limit = 0 then specApply { o with limit := 0 } d p else .unspec
+      -- outside the statement: a copy whose source is the whole document, adds that replace the root
+      let rootish : Bool := match specPatch p with
+        | some ops => ops.any fun op => (op.kind = .add && op.path = []) || (op.kind = .copy && op.frm = []) || (op.kind = .replace && op.path = [])
+            || (op.kind = .test && op.value.isNone)      -- RFC 6902 requires a value; the legacy decoder does not validate
+        | none => true
+      let escapes : Bool := p.contains 92 || d.contains 92
+      let v18 : Verdict :=
+        if rootish then .unspec else
+        match s with
+        | .unspec => .unspec
+        | .ok v =>
+          (match obs with
+           | .ok out => (match parseValueOf out with
+                         | some v' => if Value.eqv v v' then (if (v'.numLits.all fun l => v.numLits.contains l) then .ok else .viol "literal-changed") else .viol "value"
+                         | none => .viol "output-not-json")
+           | _ => if escapes then .unspec else .viol "should-succeed")
+        | .fail i c =>
+          let k := opKindAt p i
+          let listed : Bool := c = .testUnequal || c = .badIndex
+            || ((k = some .remove || k = some .move) && (c = .absentMember || c = .parentUnreachable))
+          if !listed then .unspec
+          else (match obs with
+                | .err _ => if nilDoc then .ok else .viol "document-with-error"
+                | _ => if c = .testUnequal && escapes then .unspec else .viol "should-fail")
+      let _ := rest
+      reply id true "-" [("C18", v18), ("C04", if obs.bad then .viol "panic-or-hang" else .ok)]
+        ("L/" ++ specClass s ++ "/" ++ obsClass obs ++ "/" ++ kindsSig p ++ (if limit > 0 then "L" else ""))
+    | _, _, _, _ => bad id "lapply-fields"
+  | _ => bad id "lapply-arity"
+
+def handleLEqual (id : String) (args : List String) : String :=
+  match args with
+  | a :: b :: "=>" :: r :: _ =>
+    match hexField a, hexField b with
+    | some x, some y =>
+      let got : Option Bool := if r = "t" then some true else if r = "f" then some false else none
+      let v19 : Verdict :=
+        match got, parseValueOf x, parseValueOf y with
+        | some g, some va, some vb =>
+          if !(va.isContainer && vb.isContainer) || x.contains 92 || y.contains 92 || !(va.noDup && vb.noDup) then .unspec
+          else if Value.eqv va vb then (if g then .ok else .viol "equal-values-reported-different")
+          else if Spec.numEqv va vb then .unspec
+          else (if g then .viol "different-values-reported-equal" else .ok)
+        | _, _, _ => .unspec
+      reply id true "-" [("C19", v19), ("C04", if got.isNone then .viol "panic-or-hang" else .ok)] ("L/" ++ r)
+    | _, _ => bad id "lequal-fields"
+  | _ => bad id "lequal-arity"
+
+def handleLMerge (id : String) (args : List String) : String :=
+  match args with
+  | d :: p :: "=>" :: r :: _ =>
+    match hexField d, hexField p, parseObs r with
+    | some doc, some patch, some (obs, _) =>
+      let v19 : Verdict :=
+        match parseValueOf doc, parseValueOf patch with
+        | some dv, some pv =>
+          if dv.isNull || !(pv.isObj || pv.isArr) || !(dv.noDup && pv.noDup) then .unspec
+          else (match obs with
+                | .ok out => (match parseValueOf out with
+                              | some v => if Value.eqv (Spec.merge dv pv) v then .ok else .viol "value"
+                              | none => .viol "output-not-json")
+                | _ => .viol "should-succeed")
+        | _, _ => .unspec
+      reply id true "-" [("C19", v19), ("C04", if obs.bad then .viol "panic-or-hang" else .ok)] ("L/" ++ obsClass obs)
+    | _, _, _ => bad id "lmerge-fields"
+  | _ => bad id "lmerge-arity"
+
+def handleLCompose (id : String) (args : List String) : String :=
+  match args with
+  | [a, b, d, "=>", r1, r2, r3] =>
+    match hexField a, hexField b, hexField d, parseObs r1, parseObs r2, parseObs r3 with
+    | some p1, some p2, some doc, some (comb, _), some (seq, _), some (app, _) =>
+      let v19 : Verdict :=
+        match parseValueOf p2 with
+        | some v2 => if v2.isObj then c07 p1 p2 doc comb seq app else .unspec
+        | none => .unspec
+      reply id true "-" [("C19", v19), ("C04", if comb.bad || seq.bad || app.bad then .viol "panic-or-hang" else .ok)] ("L/" ++ obsClass comb)
+    | _, _, _, _, _, _ => bad id "lcompose-fields"
+  | _ => bad id "lcompose-arity"
+
+def handleLCreate (id : String) (args : List String) : String :=
+  match args with
+  | a :: b :: "=>" :: r1 :: r2 :: _ =>
+    match hexField a, hexField b, parseObs r1, parseObs r2 with
+    | some x, some y, some (pobs, _), some (mobs, _) =>
+      let v19 : Verdict :=
+        match parseValueOf x, parseValueOf y with
+        | some va, some vb =>
+          if !(va.isObj && vb.isObj) || !(floatExact va && floatExact vb) then .unspec
+          else c03 x y pobs mobs
+        | _, _ => .unspec
+      reply id true "-" [("C19", v19), ("C04", if pobs.bad || mobs.bad then .viol "panic-or-hang" else .ok)] ("L/" ++ obsClass pobs)
+    | _, _, _, _ => bad id "lcreate-fields"
+  | _ => bad id "lcreate-arity"
 
 def handle (line : String) : String :=
   match line.splitOn " " with
@@ -657,6 +789,11 @@ def handle (line : String) : String :=
   | "CODEC" :: id :: args => handleCodec id args
   | "STD" :: id :: args => handleStd id args
   | "CLI" :: id :: args => handleCli id args
+  | "LAPPLY" :: id :: args => handleLApply id args
+  | "LEQUAL" :: id :: args => handleLEqual id args
+  | "LMERGE" :: id :: args => handleLMerge id args
+  | "LCOMPOSE" :: id :: args => handleLCompose id args
+  | "LCREATE" :: id :: args => handleLCreate id args
   | _ => "? corr=diff bad-request=unknown-command"
 
 end Driver
